@@ -22,6 +22,7 @@ import (
 type emitter struct {
 	w     *bufio.Writer
 	hangs int // cases that hit the watchdog; after maxHangs the run stops generating
+	bytes int64
 	n     int
 	dist  map[string]int
 	limit time.Time
@@ -36,12 +37,21 @@ func (e *emitter) line(kind string, args string, result string) {
 	if result == "hang" || result == "!!hang" {
 		e.hangs++
 	}
-	fmt.Fprintf(e.w, "%s %s => %s\n", kind, args, result)
+	if e.bytes > maxCaseBytes {
+		e.dist["generation_stopped_at_the_size_cap"] = 1
+		return
+	}
+	n, _ := fmt.Fprintf(e.w, "%s %s => %s\n", kind, args, result)
+	e.bytes += int64(n)
 	e.n++
 }
 
+// a case file never grows beyond this (a run that would is cut short and says so in its
+// distribution); generators are sized to stay far below it
+const maxCaseBytes = 600 << 20
+
 // exhausted reports that the hang budget is used up (generators may stop early).
-func (e *emitter) exhausted() bool { return e.hangs >= maxHangs }
+func (e *emitter) exhausted() bool { return e.hangs >= maxHangs || e.bytes > maxCaseBytes }
 func (e *emitter) count(key string) { e.dist[key]++ }
 
 // guarded runs f under recover and a watchdog; a panic is returned as "panic:<msg>", a hang as "hang".
